@@ -1,7 +1,7 @@
 """C04 - IPA opens the committed polynomial at any field point."""
 import ecref as E
 import mpgen
-from vlib import diff, std_replay, run_lines, model_env
+from vlib import diff, std_replay, run_lines, model_env, shared_use_phase
 
 SPEC = {
     "rule": "case = (polynomial in evaluation form, evaluation point, claimed result) for CreateIPAProof/CheckIPAProof; "
@@ -41,6 +41,10 @@ def run(ctx):
             lines.append("ipac %s %x %s" % (E.hx(b"c04"), z, sp))
             cls.append("create z=%d poly=%s (boundary)" % (z, kind))
     impl, mod = diff(ctx, lines, "CreateIPAProof", cls, impl_shards=2)
+    # openings at different points issued side by side on the one shared configuration
+    pick = [i for i, l in enumerate(lines) if int(l.split()[2], 16) < 256][:10] + \
+           [i for i, l in enumerate(lines) if int(l.split()[2], 16) >= 256][:4]
+    shared_use_phase(ctx, [lines[i] for i in pick], [impl[i] for i in pick], "CreateIPAProof", g=8, repeat=4)
     vl, vc, expect = [], [], []
     for l, o, om in zip(lines, impl, mod):
         t = o.split()
@@ -67,6 +71,8 @@ def run(ctx):
             vc.append("verify neighbour-point")
             expect.append(None)     # decision compared with the model only (the claim may be true, e.g. zero polynomial)
     impl, _ = diff(ctx, vl, "CheckIPAProof decision", vc, impl_shards=4)
+    pick = [i for i, l in enumerate(vl) if int(l.split()[4], 16) < 256][:16]
+    shared_use_phase(ctx, [vl[i] for i in pick], [impl[i] for i in pick], "CheckIPAProof", g=8, repeat=3)
     for l, o, c, acc in zip(vl, impl, vc, expect):
         ok = o.startswith("true")
         if acc and not ok:
